@@ -248,9 +248,10 @@ static inline bool spec_max_ok(RegisterType ty, RegisterValueU v, RegisterValueU
  * (register address, type, bit pattern).  CBMC treats the
  * __CPROVER_uninterpreted_ prefix as an uninterpreted function symbol. */
 #if !VERIF_IS_NATIVE
-_Bool __CPROVER_uninterpreted_reg_cb_verdict(uint32_t address, int type, uint64_t bits);
+unsigned __CPROVER_uninterpreted_reg_cb_verdict(uint32_t address, int type, uint64_t bits);
+/* (an uninterpreted _Bool may come back as any 8-bit pattern: use one bit of an unsigned) */
 #define SPEC_CB_VERDICT(address, type, bits) \
-  __CPROVER_uninterpreted_reg_cb_verdict((uint32_t)(address), (int)(type), (uint64_t)(bits))
+  ((__CPROVER_uninterpreted_reg_cb_verdict((uint32_t)(address), (int)(type), (uint64_t)(bits)) & 1u) != 0u)
 #else
 extern uint64_t st_cb_seed;
 static inline bool spec_cb_verdict_native(uint32_t address, int type, uint64_t bits)
